@@ -268,7 +268,7 @@ func (ex *Ex) callByContract(fr *Frame, st *State, ins ssa.Instruction, callee *
 	// havoc assigns
 	ex.havocAssigns(cf, st, ctr, args)
 	// ghost level state written by the callee
-	for _, gname := range []string{"$cap", "$dom", "$out"} {
+	for _, gname := range []string{"$cap", "$dom", "$out", "$ncalls"} {
 		for _, en := range ctr.Ensures {
 			ids := map[string]bool{}
 			exprIdents(en.E, ids)
@@ -538,6 +538,27 @@ func (ex *Ex) dynamicCall(fr *Frame, st *State, ins ssa.Instruction, cc *ssa.Cal
 	ex.panicCheck(fr, st, "nilfn", ins, "call of nil function value", Not(Eq(ft, App("nil$Fn", SFn))))
 	if ex.uniformCall(fr, st, ins, cc, ft, args, k) {
 		return
+	}
+	// calls through a parameter declared `callbackparam`: counted in the ghost $ncalls
+	if p, ok := cc.Value.(*ssa.Parameter); ok && fr.Ctr != nil && fr == ex.Top {
+		for _, pn := range fr.Ctr.CallbackParams {
+			if pn == p.Name() {
+				n, has := st.ghost["$ncalls"]
+				if !has {
+					n = SV{T: Var("ncalls0", SInt), Ty: tInt}
+				}
+				if len(args) > 0 {
+					a0 := ex.termOf(fr, st, args[0], cc.Args[0].Type())
+					st.Assume(Eq(App("g$cbarg$"+mangle(fr.Name), a0.S, n.T), a0))
+				}
+				st.ghost["$ncalls"] = SV{T: Add(n.T, IntLit(1)), Ty: tInt}
+				ex.note("calls through callback parameter " + p.Name() + " of " + fr.Name + " are counted in the ghost $ncalls; the callback is assumed not to touch what this function reads")
+				res, _ := ex.freshResults("cb", sig)
+				ex.flushFacts(st)
+				k(st, res)
+				return
+			}
+		}
 	}
 	// calls through a parameter declared `purefn`: results are functions of the arguments
 	isPure := func() (bool, string) {
